@@ -9,7 +9,9 @@ import (
 	"fmt"
 	"go/types"
 	"reflect"
+	"sort"
 	"strings"
+	"unicode/utf8"
 
 	"symgo/term"
 )
@@ -60,7 +62,13 @@ func deepCopy(m copyMode, t types.Type, v value, depth int) value {
 	switch x := v.(type) {
 	case nil:
 		return nil
-	case bool, int, int8, int16, int32, int64, uint, uint8, uint16, uint32, uint64, uintptr, float32, float64, complex64, complex128, string, symv, *symStr, bigval, decCell, *blobCell, rtype:
+	case string:
+		if m.codec == "json" {
+			// encoding/json writes every byte that is not part of a valid UTF-8 sequence as U+FFFD
+			return jsonCoerceUTF8(x)
+		}
+		return x
+	case bool, int, int8, int16, int32, int64, uint, uint8, uint16, uint32, uint64, uintptr, float32, float64, complex64, complex128, symv, *symStr, bigval, decCell, *blobCell, rtype:
 		return x
 	case *value:
 		if x == nil {
@@ -132,16 +140,55 @@ func deepCopy(m copyMode, t types.Type, v value, depth int) value {
 		}
 		mt := t.Underlying().(*types.Map)
 		out := newOmap(x.keyType)
-		for i := range x.keys {
+		order := make([]int, len(x.keys))
+		for i := range order {
+			order[i] = i
+		}
+		if m.codec == "json" {
+			// the encoder writes the entries sorted by key; this only matters when two keys become
+			// equal after the UTF-8 coercion (the decoder keeps the last one)
+			allStr := true
+			for _, k := range x.keys {
+				if _, ok := k.(string); !ok {
+					allStr = false
+				}
+			}
+			if allStr {
+				sort.SliceStable(order, func(a, b int) bool { return x.keys[order[a]].(string) < x.keys[order[b]].(string) })
+				sorted := true
+				for i := range order {
+					if order[i] != i {
+						sorted = false
+					}
+				}
+				coerced := false
+				for _, k := range x.keys {
+					if jsonCoerceUTF8(k.(string)) != k.(string) {
+						coerced = true
+					}
+				}
+				if !coerced && !sorted {
+					// no collision possible: keep the insertion order (iteration order is modelled elsewhere)
+					for i := range order {
+						order[i] = i
+					}
+				}
+			}
+		}
+		for _, i := range order {
 			k := deepCopy(m, mt.Key(), x.keys[i], depth+1)
 			v := deepCopy(m, mt.Elem(), x.vals[i], depth+1)
-			out.keys = append(out.keys, k)
-			out.vals = append(out.vals, v)
 			if ck, ok := canonKey(k); ok {
-				out.idx[ck] = i
+				if j, dup := out.idx[ck]; dup {
+					out.vals[j] = v
+					continue
+				}
+				out.idx[ck] = len(out.keys)
 			} else {
 				out.nsym++
 			}
+			out.keys = append(out.keys, k)
+			out.vals = append(out.vals, v)
 		}
 		return out
 	case iface:
@@ -337,6 +384,10 @@ func unmarshalBlob(fr *frame, codec string, data []value, dt types.Type, dst *va
 	}
 	if pt, ok := dt.Underlying().(*types.Pointer); ok && types.Identical(pt.Elem(), b.typ) {
 		c := deepCopy(copyMode{codec}, b.typ, b.snap, 0)
+		if op, ok := (*dst).(*value); ok && op != nil && codec == "json" {
+			*op = jsonMerge(b.typ, *op, c, 0) // a non-nil pointer keeps its pointee
+			return true, ""
+		}
 		*dst = &c
 		return true, ""
 	}
@@ -348,29 +399,196 @@ func unmarshalBlob(fr *frame, codec string, data []value, dt types.Type, dst *va
 	return false, fmt.Sprintf("type mismatch: encoded %s, decoding into %s", b.typ, dt)
 }
 
-// storeMerge stores decoded value c into *dst. JSON leaves fields that are not
-// encoded (unexported, tagged "-") untouched in the destination.
+// storeMerge stores decoded value c into *dst. encoding/json decodes INTO the existing destination:
+// fields that are not encoded stay, a non-nil map keeps its other entries, the elements of a slice are
+// decoded into the old elements of its backing array (up to its capacity), a non-nil pointer keeps
+// its pointee (see jsonMerge).
 func storeMerge(codec string, t types.Type, dst *value, c value) {
 	if codec == "json" {
-		if st, ok := t.Underlying().(*types.Struct); ok {
-			if nt, isNamed := t.(*types.Named); isNamed && (hasMethod(nt, "UnmarshalJSON") || hasMethod(nt, "UnmarshalText")) {
-				*dst = c
-				return
-			}
-			old, ok1 := (*dst).(structure)
-			nw, ok2 := c.(structure)
-			if ok1 && ok2 {
-				for i := range nw {
-					f := st.Field(i)
-					tag := reflect.StructTag(st.Tag(i)).Get("json")
-					if (!f.Exported() || tag == "-") && !(f.Embedded() && f.Exported()) {
-						nw[i] = old[i]
-					}
-				}
-			}
-		}
+		*dst = jsonMerge(t, *dst, c, 0)
+		return
 	}
 	*dst = c
+}
+
+// jsonCoerceUTF8: what a string looks like after a trip through encoding/json.
+func jsonCoerceUTF8(s string) string {
+	if utf8.ValidString(s) {
+		return s
+	}
+	var b strings.Builder
+	for i := 0; i < len(s); {
+		r, size := utf8.DecodeRuneInString(s[i:])
+		if r == utf8.RuneError && size == 1 {
+			b.WriteString("\uFFFD")
+		} else {
+			b.WriteString(s[i : i+size])
+		}
+		i += size
+	}
+	return b.String()
+}
+
+// jsonIsEmpty: encoding/json's omitempty test; ok=false when it cannot be decided concretely.
+func jsonIsEmpty(v value) (empty bool, ok bool) {
+	switch x := v.(type) {
+	case nil:
+		return true, true
+	case bool:
+		return !x, true
+	case int:
+		return x == 0, true
+	case int8:
+		return x == 0, true
+	case int16:
+		return x == 0, true
+	case int32:
+		return x == 0, true
+	case int64:
+		return x == 0, true
+	case uint:
+		return x == 0, true
+	case uint8:
+		return x == 0, true
+	case uint16:
+		return x == 0, true
+	case uint32:
+		return x == 0, true
+	case uint64:
+		return x == 0, true
+	case uintptr:
+		return x == 0, true
+	case float32:
+		return x == 0, true
+	case float64:
+		return x == 0, true
+	case string:
+		return x == "", true
+	case *value:
+		return x == nil, true
+	case []value:
+		return len(x) == 0, true
+	case array:
+		return len(x) == 0, true
+	case *omap:
+		return x == nil || len(x.keys) == 0, true
+	case iface:
+		return x.t == nil, true
+	case structure:
+		return false, true
+	}
+	return false, false
+}
+
+// jsonMerge computes what the destination holds after decoding the document whose content is the
+// snapshot nw (a deep copy already) into a destination that currently holds old.
+func jsonMerge(t types.Type, old, nw value, depth int) value {
+	if depth > 60 {
+		panic(unsupported("jsonMerge: structure too deep"))
+	}
+	if nt, isNamed := t.(*types.Named); isNamed {
+		if ts := nt.String(); ts == "github.com/meshplus/bitxhub-kit/types.Hash" || ts == "github.com/meshplus/bitxhub-kit/types.Address" {
+			// UnmarshalJSON copies the raw bytes into the receiver and leaves the cached rendering alone
+			o, ok1 := old.(structure)
+			n, ok2 := nw.(structure)
+			if ok1 && ok2 && len(o) == 2 && len(n) == 2 {
+				return structure{n[0], o[1]}
+			}
+			return nw
+		}
+		if hasMethod(nt, "UnmarshalJSON") || hasMethod(nt, "UnmarshalText") {
+			return nw
+		}
+	}
+	if a, ok := t.(*types.Alias); ok {
+		return jsonMerge(types.Unalias(a), old, nw, depth)
+	}
+	switch u := t.Underlying().(type) {
+	case *types.Pointer:
+		np, ok1 := nw.(*value)
+		op, ok2 := old.(*value)
+		if !ok1 || np == nil || !ok2 || op == nil {
+			return nw
+		}
+		*op = jsonMerge(u.Elem(), *op, *np, depth+1)
+		return op
+	case *types.Struct:
+		o, ok1 := old.(structure)
+		n, ok2 := nw.(structure)
+		if !ok1 || !ok2 || len(o) != len(n) {
+			return nw
+		}
+		for i := range n {
+			f := u.Field(i)
+			tag := reflect.StructTag(u.Tag(i)).Get("json")
+			if (!f.Exported() || tag == "-") && !(f.Embedded() && f.Exported()) {
+				n[i] = o[i]
+				continue
+			}
+			if strings.Contains(tag, ",omitempty") {
+				if e, ok := jsonIsEmpty(n[i]); ok && e {
+					n[i] = o[i] // absent from the document
+					continue
+				}
+			}
+			n[i] = jsonMerge(f.Type(), o[i], n[i], depth+1)
+		}
+		return n
+	case *types.Slice:
+		if b, ok := u.Elem().Underlying().(*types.Basic); ok && b.Kind() == types.Uint8 {
+			return nw // base64 text: replaced as a whole
+		}
+		n, ok1 := nw.([]value)
+		o, ok2 := old.([]value)
+		if !ok1 || n == nil || !ok2 || cap(o) == 0 {
+			return nw
+		}
+		full := o[:cap(o)]
+		res := o[:0]
+		for i := range n {
+			if i < len(full) {
+				res = full[:i+1]
+				res[i] = jsonMerge(u.Elem(), full[i], n[i], depth+1)
+			} else {
+				res = append(res, n[i])
+			}
+		}
+		return res
+	case *types.Array:
+		n, ok1 := nw.(array)
+		o, ok2 := old.(array)
+		if !ok1 || !ok2 || len(n) != len(o) {
+			return nw
+		}
+		for i := range n {
+			n[i] = jsonMerge(u.Elem(), o[i], n[i], depth+1)
+		}
+		return n
+	case *types.Map:
+		n, ok1 := nw.(*omap)
+		o, ok2 := old.(*omap)
+		if !ok1 || n == nil || !ok2 || o == nil {
+			return nw
+		}
+		for i := range n.keys {
+			ck, ok := canonKey(n.keys[i])
+			if !ok {
+				panic(unsupported("json decode into a non-empty map with symbolic keys"))
+			}
+			if j, dup := o.idx[ck]; dup {
+				o.vals[j] = n.vals[i]
+				continue
+			}
+			if o.nsym > 0 {
+				panic(unsupported("json decode into a non-empty map with symbolic keys"))
+			}
+			o.idx[ck] = len(o.keys)
+			o.keys = append(o.keys, n.keys[i])
+			o.vals = append(o.vals, n.vals[i])
+		}
+		return o
+	}
+	return nw
 }
 
 // convertShape re-shapes a snapshot of type st into type dt when both denote the same
